@@ -83,11 +83,11 @@ pub fn project(w: &World) -> Value {
             let due = u(b.get("next_batch_action_time").unwrap_or(&Value::Null)) / 1_000_000_000;
             // BatchResponse flattens None to 0; the status tells which fields are meaningful
             batches.push(json!({
-                "id": b.get("id").cloned().unwrap_or(Value::Null),
+                "id": b.get("id").cloned().unwrap_or(json!(-1)),
                 "total": num(u(&b["batch_total_liquid_stake"])),
                 "expected": if status == "pending" { json!(-1) } else { num(u(&b["expected_native_unstaked"])) },
                 "received": if status == "received" { num(u(&b["received_native_unstaked"])) } else { json!(-1) },
-                "cnt": b.get("unstake_request_count").cloned().unwrap_or(Value::Null),
+                "cnt": b.get("unstake_request_count").cloned().unwrap_or(json!(-1)),
                 "due": if status == "received" { json!(-1) } else { json!(due as u64) },
                 "status": status,
             }));
@@ -109,7 +109,7 @@ pub fn project(w: &World) -> Value {
             }
             .to_string();
             pk.push(json!({
-                "seq": p.get("sequence").cloned().unwrap_or(Value::Null),
+                "seq": p.get("sequence").cloned().unwrap_or(json!(-1)),
                 "den": nm(p.pointer("/amount/denom").and_then(|x| x.as_str()).unwrap_or("")),
                 "amt": num(u(p.pointer("/amount/amount").unwrap_or(&Value::Null))),
                 "rcv": nm(p.get("receiver").and_then(|x| x.as_str()).unwrap_or("")),
@@ -131,22 +131,22 @@ pub fn project(w: &World) -> Value {
     };
     let lst_denom = cfg.get("liquid_stake_token_denom").and_then(|x| x.as_str()).unwrap_or("").to_string();
     let cfgj = json!({
-        "natPrefix": cfg.pointer("/native_chain_config/account_address_prefix").cloned().unwrap_or(Value::Null),
-        "valPrefix": cfg.pointer("/native_chain_config/validator_address_prefix").cloned().unwrap_or(Value::Null),
-        "tokenDenom": cfg.pointer("/native_chain_config/token_denom").cloned().unwrap_or(Value::Null),
+        "natPrefix": cfg.pointer("/native_chain_config/account_address_prefix").cloned().unwrap_or(json!("")),
+        "valPrefix": cfg.pointer("/native_chain_config/validator_address_prefix").cloned().unwrap_or(json!("")),
+        "tokenDenom": cfg.pointer("/native_chain_config/token_denom").cloned().unwrap_or(json!("")),
         "validators": names_of(cfg.pointer("/native_chain_config/validators")),
-        "unbonding": cfg.pointer("/native_chain_config/unbonding_period").cloned().unwrap_or(Value::Null),
+        "unbonding": cfg.pointer("/native_chain_config/unbonding_period").cloned().unwrap_or(json!(-1)),
         "staker": sopt(cfg.pointer("/native_chain_config/staker_address")),
         "collector": sopt(cfg.pointer("/native_chain_config/reward_collector_address")),
-        "protoPrefix": cfg.pointer("/protocol_chain_config/account_address_prefix").cloned().unwrap_or(Value::Null),
-        "channel": cfg.pointer("/protocol_chain_config/ibc_channel_id").cloned().unwrap_or(Value::Null),
+        "protoPrefix": cfg.pointer("/protocol_chain_config/account_address_prefix").cloned().unwrap_or(json!("")),
+        "channel": cfg.pointer("/protocol_chain_config/ibc_channel_id").cloned().unwrap_or(json!("")),
         "natDen": sopt(cfg.pointer("/protocol_chain_config/ibc_token_denom")),
         "minStake": num(u(cfg.pointer("/protocol_chain_config/minimum_liquid_stake_amount").unwrap_or(&Value::Null))),
         "oracle": sopt(cfg.pointer("/protocol_chain_config/oracle_address")),
         "fee": num(u(cfg.pointer("/protocol_fee_config/dao_treasury_fee").unwrap_or(&Value::Null))),
         "treasury": sopt(cfg.pointer("/protocol_fee_config/treasury_address")),
         "monitors": names_of(cfg.get("monitors")),
-        "batchPeriod": cfg.get("batch_period").cloned().unwrap_or(Value::Null),
+        "batchPeriod": cfg.get("batch_period").cloned().unwrap_or(json!(-1)),
         "lst": nm(&lst_denom),
     });
     let min_time = match st.get("__err") {
@@ -163,7 +163,7 @@ pub fn project(w: &World) -> Value {
     };
     let (vname, vver) = raw_version(w);
     let c = json!({
-        "stopped": cfg.get("stopped").cloned().unwrap_or(Value::Null),
+        "stopped": cfg.get("stopped").cloned().unwrap_or(json!(false)),
         "admin": nm(&raw_admin(w)),
         "pending": nm(st.get("pending_owner").and_then(|x| x.as_str()).unwrap_or("")),
         "minTime": min_time,
@@ -171,9 +171,9 @@ pub fn project(w: &World) -> Value {
         "L": num(u(&st["total_liquid_stake_token"])),
         "fees": num(u(&st["total_fees"])),
         "rewards": num(u(&st["total_reward_amount"])),
-        "rate": st.get("rate").cloned().unwrap_or(Value::Null),
+        "rate": st.get("rate").cloned().unwrap_or(json!("<none>")),
         "stateErr": st.get("__err").is_some() || st.get("__panic").is_some(),
-        "pend": pend.get("id").cloned().unwrap_or(Value::Null),
+        "pend": pend.get("id").cloned().unwrap_or(json!(-1)),
         "batches": batches,
         "reqs": reqs,
         "pk": pk,
